@@ -191,13 +191,9 @@ func checkC17(p *Prog, r *Report) {
 				}
 				return p.Canon(e)
 			})
-			want := map[string]string{"direction": "8192", "const:8191": "1"}
-			ok2 := lf.OK && len(lf.Terms) == len(want)
-			for k, v := range want {
-				if lf.Terms[k] == nil || lf.Terms[k].String() != v {
-					ok2 = false
-				}
-			}
+			// the constant 8191 may appear as a named local (coefficient 1) or folded into the constant term
+			ok2 := lf.OK && len(lf.Terms) == 2 && lf.Terms["direction"] != nil && lf.Terms["direction"].String() == "8192" &&
+				((lf.Terms["const:8191"] != nil && lf.Terms["const:8191"].String() == "1") || (lf.Terms[""] != nil && lf.Terms[""].String() == "8191"))
 			r.Check(ok2, "TCP local preference formula", p.Pos(rs.Pos()), "2^13*direction + 8191", "linear form is "+lf.String()+" "+lf.Why+", expected 8192*direction + 8191")
 			return true
 		})
@@ -323,7 +319,25 @@ func checkC17(p *Prog, r *Report) {
 	if tp != nil {
 		t := p.NewTable(tp)
 		t.Event = func(n ast.Node, _ *TEnv) []string {
+			// the preference is reduced: "pref -= offset", "pref = pref - offset" or "return pref - offset"
 			if as, ok := n.(*ast.AssignStmt); ok && as.Tok == token.SUB_ASSIGN {
+				return []string{"reduce"}
+			}
+			reduce := false
+			switch n.(type) {
+			case *ast.AssignStmt, *ast.ReturnStmt:
+				ast.Inspect(n, func(x ast.Node) bool {
+					if be, ok := x.(*ast.BinaryExpr); ok && be.Op == token.SUB {
+						if _, c1 := p.ConstVal(be.X); !c1 {
+							if _, c2 := p.ConstVal(be.Y); !c2 {
+								reduce = true
+							}
+						}
+					}
+					return true
+				})
+			}
+			if reduce {
 				return []string{"reduce"}
 			}
 			return nil
@@ -488,7 +502,7 @@ func checkC17(p *Prog, r *Report) {
 		calls := p.CallsTo(fo, false, "hash/crc32.ChecksumIEEE")
 		for _, c := range calls {
 			var inputs []string
-			ast.Inspect(c.Args[0], func(x ast.Node) bool {
+			p.inspectThroughLocals(fo, c.Args[0], func(x ast.Node) bool {
 				switch y := x.(type) {
 				case *ast.SelectorExpr:
 					if fv := p.FieldOf(y); fv != nil {
